@@ -51,7 +51,7 @@ def run_case(case, ctx):
     na = int(rng.integers(1, 4))
     scales = [gen.SCALES_MODERATE, [0.5, 1.0, 3.0, 10.0], gen.SCALES_MODERATE, gen.SCALES_FULL][case["rep"] % 4]
     ctx.seen("scale_classes", case["rep"] % 4)
-    am, ph = gen.draw_model(rng, kind, nv, nh, na, scales=scales)
+    am, ph = gen.draw_model(rng, kind, nv, nh, na, scales=scales, phase_aux_bias=(case["rep"] % 3 == 1))
     obs = []
     for ab in (False, True):
         obs += [("SigmaX", SigmaX(absolute=ab), R.magnetisation(R.SX, nv), ab),
